@@ -459,3 +459,69 @@ package plenccodec
 //@   safety C04 C11
 //@   writes ptr 24
 //@   ensures[C04,C05] err == nil ==> 0 <= n && n <= len(data)
+
+// ---------------------------------------------------------------------------
+// JSON-any codecs and the descriptor walker: totality on arbitrary bytes (C04)
+
+//@ func plenccodec.JSONMapCodec.Read
+//@   safety C04 C16
+//@   allocbound[C04] len(data)
+//@   loop 1 invariant[C04] 0 < offset && offset <= len(data) && m != nil
+//@   loop 1 decreases len(data) - offset
+//@   ensures[C04,C05] err == nil ==> 0 <= n && n <= len(data)
+
+//@ func plenccodec.JSONArrayCodec.Read
+//@   safety C04 C16
+//@   allocbound[C04] len(data)
+//@   loop 1 invariant[C04] 0 <= offset && offset <= len(data)
+//@   loop 1 decreases len(a) - rangeindex
+//@   ensures[C04,C05] err == nil ==> 0 <= n && n <= len(data)
+
+//@ func plenccodec.readJSONKV
+//@   safety C04 C16
+//@   loop 1 invariant[C04] 0 <= offset && offset <= len(data)
+//@   loop 1 decreases len(data) - offset
+//@   ensures[C04,C05] err == nil ==> 0 <= n && n <= len(data)
+
+//@ func plenccodec.*Descriptor.Read
+//@   safety C04 C13
+
+//@ func plenccodec.*Descriptor.read
+//@   safety C04 C13
+//@   ensures[C04] err == nil ==> 0 <= n && n <= len(data)
+
+//@ func plenccodec.*Descriptor.readAsSlice
+//@   safety C04 C13
+//@   loop 1 invariant[C04] 0 <= offset && offset <= len(data)
+//@   loop 1 decreases len(data) - offset
+//@   loop 2 invariant[C04] 0 <= offset && offset <= len(data) && 0 <= i
+//@   loop 2 decreases len(data) - offset
+//@   ensures[C04] err == nil ==> 0 <= n && n <= len(data)
+
+//@ func plenccodec.*Descriptor.readAsStruct
+//@   safety C04 C13
+//@   loop 1 invariant[C04] 0 <= offset && offset <= l && l == len(data)
+//@   loop 1 decreases l - offset
+//@   loop 2 invariant[C04] 0 <= rangeindex + 1
+//@   loop 2 decreases len(d.Elements) - rangeindex
+//@   ensures[C04] err == nil ==> 0 <= n && n <= len(data)
+
+//@ func plenccodec.*Descriptor.readAsMapEntry
+//@   safety C04 C13
+//@   loop 1 invariant[C04] 0 <= offset && offset <= l && l == len(data)
+//@   loop 1 decreases l - offset
+//@   loop 2 invariant[C04] 0 <= rangeindex + 1
+//@   loop 2 decreases len(d.Elements) - rangeindex
+//@   ensures[C04] err == nil ==> 0 <= n && n <= len(data)
+
+//@ func plenccodec.*Descriptor.readAsJSON
+//@   safety C04 C13 C16
+//@   loop 1 invariant[C04] 0 <= offset && offset <= len(data) && 0 <= i
+//@   loop 1 decreases len(data) - offset
+//@   ensures[C04] err == nil ==> 0 <= n && n <= len(data)
+
+//@ func plenccodec.*Descriptor.readJSONObjectKV
+//@   safety C04 C13 C16
+//@   loop 1 invariant[C04] 0 <= offset && offset <= len(data)
+//@   loop 1 decreases len(data) - offset
+//@   ensures[C04] err == nil ==> 0 <= n && n <= len(data)
